@@ -156,7 +156,7 @@ pub fn eval_one(profile: &str, ast: &Node, flags: Flags, hays: &[Hay], run: &Run
     acc.digests.push((h64(&(profile, &pat, flags)), digest));
 }
 
-const PROFILES: [(&str, usize, usize); 7] = [("utf8", 3, 4), ("onechar", 3, 3), ("look", 3, 4), ("lit", 2, 3), ("icase", 2, 3), ("core", 4, 5), ("vset", 2, 3)];
+const PROFILES: [(&str, usize, usize); 8] = [("dotcap", 4, 6), ("utf8", 3, 4), ("onechar", 3, 3), ("look", 3, 4), ("lit", 2, 3), ("icase", 2, 3), ("core", 4, 5), ("vset", 2, 3)];
 
 pub fn explore(run: &Run) -> (Stats, Vec<(u64, u64)>) {
     let thorough = run.thorough();
@@ -308,7 +308,7 @@ pub fn c06(run: &mut Run, worker_prefixes: &[String]) -> Stats {
         variants.push(J::obj().set("variant", J::s(&vname)).set("cases", J::u(cases)).set("patterns", J::u(compared)).set("patterns_differing_from_baseline", J::u(differing)));
     }
     run.extra.push(("variants".into(), J::Arr(variants)));
-    run.rule = "every AST of the profiles utf8, 1char, look, lit, icase, core, vset up to the size bound x flags x haystacks over {a, é, €, U+1F600 (+ profile letters)} (all four UTF-8 lengths, every adjacency, empty, both ends) x every start the API accepts (each char boundary, len, len+1; every byte offset for the ASCII entry points) x {backtracking via Regex::find_from, PikeVM, both ASCII entry points} x {optimised, no_opt}; run in each build variant listed under coverage.variants; non-trivial = at least one match".into();
+    run.rule = "every AST of the profiles dotcap, utf8, 1char, look, lit, icase, core, vset up to the size bound x flags x haystacks over {a, é, €, U+1F600 (+ profile letters)} (all four UTF-8 lengths, every adjacency, empty, both ends) x every start the API accepts (each char boundary, len, len+1; every byte offset for the ASCII entry points) x {backtracking via Regex::find_from, PikeVM, both ASCII entry points} x {optimised, no_opt}; run in each build variant listed under coverage.variants; non-trivial = at least one match".into();
     run.assumptions = vec![
         "monitors: (1) debug-assertions + overflow-checks build: every debug_assert in indexing / position / util / executors is an invariant checked at every step; (2) index-positions + prohibit-unsafe build: any out-of-range access panics; (3) every reported range satisfies 0 <= start <= end <= len and char boundaries; (4) all variants return identical results (per-pattern digests)".into(),
         "ASCII entry points on non-ASCII text are outside the documented precondition: explored for panics / out-of-range access only, not for the char-boundary clause".into(),
